@@ -52,6 +52,11 @@ ReuseOps == [c \in {"A", "B"} |-> IF c = "A" THEN {"Socket", "BindAddr", "Listen
 SeqReuse == [c \in {"A", "B"} |-> IF c = "A" THEN <<"dlc">> ELSE <<"dlc", "dlc">>]
 Max32r   == [c \in {"A", "B"} |-> IF c = "A" THEN 3 ELSE 2]
 BA56     == {5, 6}
+\* one full cycle of an address range and more: allocate, give back, allocate again (temporal witnesses NeverDynRefilled /
+\* NeverNamedRefilled must be violated; AddrPoolConserved all the way)
+RefillOps  == [c \in {"A", "B"} |-> IF c = "A" THEN {"Socket", "BindNone", "Close"} ELSE {}]
+RefillOpsN == [c \in {"A", "B"} |-> IF c = "A" THEN {"Socket", "BindName", "Close"} ELSE {}]
+SeqRefill == [c \in {"A", "B"} |-> IF c = "A" THEN <<"ldl", "dlc", "ldl", "dlc", "ldl">> ELSE <<>>]
 \* link MIUs of the scaled model: A announces 3, B announces 2 (a sender may put as much as the RECEIVER announced)
 MiuAB == [c \in {"A", "B"} |-> IF c = "A" THEN 3 ELSE 2]
 =============================================================================
